@@ -73,6 +73,7 @@ def batch_oracle(ctx, lines, impl):
             verdicts[i] = "number of placeholders and of values differ"
         elif want != ti.split(" ")[:-1]:
             verdicts[i] = "inline form is not the parameterised form with literals substituted (engine token streams differ)"
+    qcommon.text_level_premise(ctx, lines, impl, "I")
     ctx.cov["oracle_statements_compared"] = checked
     return verdicts
 
